@@ -8,11 +8,19 @@ DEDUCTIVE = [{"module": "rnapolis.common", "sidecar": "contracts.common_elems_c"
              {"module": "rnapolis.common", "sidecar": "contracts.common_elems_c",
               "opts": {"z3_probe_ms": 800},  # stage order: short z3 attempt, cvc5, then the usual z3 stages
               "targets": ["Strand.from_bpseq_entries", "lemma:consecutive", "lemma:onto_length",
-                          "Stem.from_bpseq_entries", "BpSeq.elements@prefix"]}]
+                          "Stem.from_bpseq_entries", "BpSeq.elements@prefix"]},
+             # observe_at motif_extractor.main: data flow of the command-line tool (library calls opaque, see ASSUMPTIONS)
+             {"module": "rnapolis.motif_extractor", "sidecar": "contracts.motif_c", "targets": ["main"]}]
 TRUSTED = ["z3 5.1.0 / cvc5 1.0.3", "pyvc encoding of Python semantics (DESIGN 2.3)", "CPython 3.12",
            "external sorted() (contracts.common_elems_c._sorted_int_set): for a set of integers, the strictly increasing list of "
            "exactly its members",
-           "external collections.defaultdict (only named; the statement that uses it lies behind the cut point)"]
+           "external collections.defaultdict (only named; the statement that uses it lies behind the cut point)",
+           "motif_extractor.main (contracts/motif_c.py) externals: argparse.ArgumentParser / add_argument / parse_args (parse_args exits "
+           "or returns a namespace whose attributes are the constants cli_<dest>(): Optional string for --dbn / --bpseq, bool for the "
+           "store_true flags); builtins.print and ArgumentParser.print_help as ONE new entry of the ghost list ref(Stdout, 0).lines per "
+           "call (print_help: the opaque entry help_text(); print inside a loop only if the loop contract declares writes "
+           "['Stdout.lines']); itertools.chain of lists = their concatenation; str() of a DotBracket object = db_text(value), str() of "
+           "a Stem / SingleStrand / Hairpin / Loop object = elem_text(structure value, kind, position) (uninterpreted)"]
 ASSUMPTIONS = [
     "cached_property model: every access to BpSeq.__stems_entries / BpSeq.dot_bracket returns the value of a ghost slot "
     "(self.stems_ / self.dot_bracket_) that satisfies the property's contract in the current state; for __stems_entries this is "
@@ -26,6 +34,16 @@ ASSUMPTIONS = [
     "its clauses speak of the local variables at that point. That the rest of the function returns `stems` and `hairpins` "
     "unchanged and only appends to `single_strands` is a syntactic observation (no statement behind the cut assigns, mutates or "
     "writes them), not an engine proof",
+    "motif_extractor.main: every library call is an ASSUMED callee contract of contracts/motif_c.py (none is a verify target "
+    "there): BpSeq.from_file, DotBracket.from_file, BpSeq.from_dotbracket, BpSeq.without_isolated, BpSeq.without_pseudoknots and the "
+    "cached properties BpSeq.dot_bracket / BpSeq.elements are opaque functions of an abstract structure value `val` carried by each "
+    "object (bpseq_file(path), dbn_file(path), bp_of_db, wo_isolated, wo_pseudoknots, dot_bracket_of, n_el / element (src, kind, idx) - "
+    "all uninterpreted), modify no existing object, and may raise ValueError / IndexError / KeyError / RuntimeError (and OSError "
+    "for the two readers). What these functions compute is the subject of the other targets (elements prefix here, C12 for the "
+    "two removals, C01 for the text readers); main's clauses hold for ANY such functions. The elements tuple is modelled as four "
+    "lists of one model class Element (the real classes differ; main only prints them)",
+    "motif_extractor.main: `out()` (the printed lines) is empty when main starts (precondition: the list counts from the start of "
+    "the call); one entry per print() call, not per text line (the first entry holds an embedded newline)",
 ]
 EXPLANATION = (
     "Under contract (sidecar contracts/common_elems_c.py): BpSeq.__stems_entries (contract of common_c, C01: the stems are "
@@ -55,6 +73,87 @@ EXPLANATION = (
     "of exactly one single strand, hairpin or loop strand'. Observed while reading: `if i in used` compares an int with a set "
     "of Strand values (always False), and a structure without any pair returns four empty lists (no single strand at all) - "
     "both are left to the bounded oracle / triage."
+    " COMMAND-LINE TOOL (observe_at motif_extractor.main, sidecar contracts/motif_c.py, module rnapolis.motif_extractor): main() is "
+    "executed symbolically from argparse to the last print, the library calls being opaque functions of an abstract structure value "
+    "(see ASSUMPTIONS). Clauses, for every command line and every file: (no-input-option-prints-help-and-nothing-else) with neither "
+    "--dbn nor --bpseq (missing or empty) exactly one thing is printed, the help text; otherwise "
+    "(dot-bracket-and-elements-are-read-from-ONE-object) the BpSeq object whose dot_bracket is printed IS the object whose elements "
+    "are printed, (that-object-is-file-then-without-isolated-then-without-pseudoknots) it holds the file's structure (--dbn wins over "
+    "--bpseq; DotBracket.from_file then BpSeq.from_dotbracket, or BpSeq.from_file), replaced by its without_isolated() when "
+    "--remove-isolated and THEN by its without_pseudoknots() when --remove-pseudoknots (the uninterpreted functions do not commute, "
+    "so the order is part of the clause), (first-line-is-the-dot-bracket-of-that-structure) the first print is 'Full dot-bracket:' + "
+    "newline + str(dot_bracket of that structure), (then-every-element-of-that-structure-in-order-and-nothing-else) followed by "
+    "one print per element of `elements` of that structure - stems, single strands, hairpins, loops, each list in list order - and "
+    "nothing else. Not covered by this target: what the printed texts look like (str of the element classes) and the library "
+    "calls themselves; the bounded CLI run of this module compares the real output with the library's."
+)
+# --- appended (loop-linking graph and the tail of BpSeq.elements now under contract; supersedes the statements above about where the
+# cut lies and about what is bounded only) ---
+DEDUCTIVE += [{"module": "rnapolis.common", "sidecar": "contracts.common_elems_tail_c", "targets": ["BpSeq.elements@tail"]}]
+TRUSTED += ["external collections.defaultdict(set) (contracts.common_elems_c._defaultdict), now USED by the verified part of "
+            "BpSeq.elements: an empty dict whose missing-key read inserts set() (the engine's defaultdict semantics); at the start of "
+            "the tail contract the local `graph` is such a defaultdict(set) (start_defaultdicts)",
+            "pyvc tail contracts (engine.verify, start_at / start_from / start_locals / start_assumes): a function is verified from a "
+            "top-level statement on, in a state where the named locals are unknown values of their shapes, the heap is unknown, and "
+            "only clauses are assumed that the named prefix contract of the same function proves (textually the same clause) at its "
+            "cut point in front of the same statement",
+            "pyvc set objects kept as the list of the values added (class entry boxed_valueset; calls.boxed_valueset_method): "
+            "`x in s` is equality of x with one of the values added (what a Python set answers for values whose __hash__ is "
+            "consistent with __eq__, as for the frozen dataclass Strand), s.add / s.update(list) append; nothing else is modelled"]
+ASSUMPTIONS += [
+    "CUT MOVED: the target BpSeq.elements@prefix now denotes the longer prefix contract bpseq_elements_graph (contracts/common_elems_c.py): "
+    "BpSeq.elements is verified from its entry up to, not including, the statement `used = set()` - i.e. including the two nested loops that "
+    "build the loop-linking graph; every clause listed for the old cut point is proved at the new one",
+    "TAIL: BpSeq.elements@tail (contracts/common_elems_tail_c.py) verifies the rest of the function, from `used = set()` to the return, as a "
+    "TAIL contract: its entry facts are the clauses TAIL_FACTS that BpSeq.elements@prefix proves at that cut point (valid structure, every "
+    "loop-strand candidate is cand_ok, the two graph clauses, no loop reported yet); the locals stems / single_strands / hairpins / loops / "
+    "loop_candidates / graph are unknown values of their shapes there. The two halves are proved under class tables that differ only by "
+    "the class StrandSet (the model of `used`), which the prefix does not use. Composition of the two halves (the state at the cut of a "
+    "real run satisfies the prefix's proved clauses, hence the tail's assumptions) is the engine's tail-contract rule, not a separate proof",
+    "`used` (a set of Strand values) is modelled as a set object kept as the list of the values added (StrandSet); Strand == Strand is the "
+    "dataclass field-wise equality (first, last, sequence, structure); Loop.__post_init__ / SingleStrand.__post_init__ are not modelled "
+    "(as for Stem / Hairpin above)",
+    "termination of the closure walk `while True` is NOT proved (no `decreases`): all tail clauses are partial-correctness statements",
+]
+EXPLANATION += (
+    " LOOP-LINKING GRAPH AND TAIL (appended; lines ~599-639 are no longer bounded-only). With LC the loop-strand candidates and "
+    "link(a, b) := entries[LC[a].last - 1].pair == LC[b].first ('the 3' end of candidate a is base-paired with the 5' end of candidate b'): "
+    "(A) BpSeq.elements@prefix, at the new cut point `used = set()`: (graph-edges-join-base-paired-consecutive-ends) b in graph[a] only if "
+    "a != b are candidate numbers and link(a, b); (every-base-paired-pair-of-ends-is-an-edge) for all candidates a < b: link(a, b) => b in "
+    "graph[a] and link(b, a) => a in graph[b]; the reads self.entries[i_last - 1] / [j_last - 1] cannot raise; "
+    "(every-gap-with-unpaired-interior-is-a-hairpin-or-a-loop-candidate, hairpins-span-their-gaps, candidates-span-their-gaps) along "
+    "the stops loop (ghost maps KIND / IDX per gap, HPG / LCG per hairpin / candidate): for every two CONSECUTIVE stops p < q whose "
+    "interior p+1..q-1 is unpaired, the gap is reported - as a hairpin with strand p+1..q+1 when entries[p].pair == q+1, otherwise as a "
+    "loop-strand candidate with that strand - and every hairpin / candidate spans exactly one such gap (the code-side half of 'every "
+    "pair enclosing only unpaired nucleotides IS reported as a hairpin' and of the coverage clause; the gap that reports nothing is "
+    "shown to contain a paired nucleotide, by a ghost witness). "
+    "(B) BpSeq.elements@tail, from `used = set()` to the return (closure walk `for i: loop = [..]; while True: for j in graph[i]: .. break / "
+    "else: break`, the closing test, `used.update(loop)`, the final loop over the candidates), clauses about the RETURNED tuple: "
+    "(every-loop-is-a-closed-cycle-...) every reported Loop has at least two strands, the 3' end of each strand is base-paired with the 5' "
+    "end of the next, the 3' end of the last with the 5' end of the first, and every strand is a candidate (between two paired nucleotides "
+    "that are not partners, interior unpaired, sequence / structure the slices) - 'every loop is a closed cycle of at least two strands "
+    "whose consecutive ends are base-paired and whose interiors are unpaired'; walk invariants: the walk stands at candidate i, is a chain "
+    "of base-paired ends, holds candidates only; >= 2 strands because a one-strand walk cannot pass the closing test (a candidate's ends are "
+    "not partners); (stems / hairpins returned unchanged, earlier single strands kept) the tail returns the prefix's `stems` and `hairpins` "
+    "lists as they are and only appends to `single_strands` - now an engine proof; (new-single-strands-are-free-candidates, "
+    "every-candidate-outside-the-loops-is-a-single-strand, only-candidates-outside-the-loops-are-new-single-strands, "
+    "strands-of-reported-loops-are-in-used, used-holds-only-strands-of-reported-loops) the set `used` holds exactly the strands of the "
+    "reported loops; every candidate that is not in it is reported as a plain single strand (neither 5' nor 3'), and every new single "
+    "strand is such a candidate - so every loop-strand candidate is a strand of a reported loop or a reported single strand, and no "
+    "single strand is a strand of a reported loop; no IndexError / KeyError anywhere in the tail; nothing allocated before the cut is "
+    "written. "
+    "STILL BOUNDED ONLY, precisely: (i) termination of `while True` (needs: the strands of `loop` are pairwise different candidates, then a "
+    "pigeonhole bound len(loop) <= len(LC)); (ii) 'exactly one' inside the loops: that no candidate is a strand of two reported loops or "
+    "occurs twice in one (needs: a graph node has at most one successor, and a reported loop is closed under it; note `if i in used` "
+    "compares an int with Strand values and never fires, so a walk may START at a used candidate - it then cannot close); (iii) the "
+    "statements about the stops that connect candidates / hairpins to ARBITRARY positions: 'every pair enclosing only unpaired "
+    "nucleotides IS reported as a hairpin' (converse direction: needs that the two ends of such a pair are inner stem ends, hence stops, "
+    "and consecutive in `stops`) and 'every unpaired nucleotide lies in the interior of exactly one single strand, hairpin or loop "
+    "strand' (needs, on top of (A) and (B): an unpaired position between two consecutive stops lies in a gap whose interior is entirely "
+    "unpaired - because a paired interior position would belong to a stem strand whose two ends are stops; plus disjointness of the "
+    "reported strands' interiors). Both missing steps are statements about the STOPS (that all four ends of every stem are stops is in the "
+    "code but only the outer two are in the invariant stop_ends; contiguity of stem strands), not about the reporting code; (iv) a structure without any pair returns four empty lists (early return, no single strand "
+    "at all): outside both halves' clauses. These stay with the exhaustive oracle (all pairings N <= 10)."
 )
 
 
